@@ -1,19 +1,17 @@
 """property id -> units and reporting metadata (single source for MANIFEST.json)"""
-from units import (specificity, best, fragments, static_list, hashing, vptrs, resolve, generator, handlers,
+from units import (augment, specificity, best, fragments, static_list, hashing, vptrs, resolve, generator, handlers,
                    virtual_ptr, deferred, slots, install, best_proof, codec)
 
 A_TABLES = ('compiler::build_dispatch_tables (grouping of classes by applicability mask, stride products, recursion order, '
             'v-table entry filling) is NOT under contract (std::map<dynamic_bitset,...>, recursion over containers): '
             'I_table - "cell(g_0..g_n-1) is best() of the definitions applicable to the classes of those groups" - is assumed')
-A_AUGMENT = ('compiler::augment_classes / calculate_covariant_classes / augment_methods are NOT under contract (unordered_map keyed by '
-             'type_index, deque, std::sort, mark-and-sweep): cov is an arbitrary relation with the stated order axioms; '
-             'update-time lookups of unregistered classes are not checked')
+A_AUGMENT = ('compiler::augment_classes / calculate_covariant_classes are checked BOUNDED only (units/augment: every DAG of <= 4 classes x 6 ways of presenting it), '
+             'augment_methods is NOT under contract: in the proofs cov is an arbitrary relation with the stated order axioms; '
+             'update-time lookups of unregistered method parameter classes are not checked')
 A_INSTALL = ('compiler::install_gv (copy of tables / v-tables / slots and strides into the policy\'s dispatch data) is checked BOUNDED only '
              '(units/install: concrete registry shapes): the layout invariant I_layout the resolve proofs assume is established for those shapes, not proved in general')
 
 NOT_APPLICABLE = {
-    'C08': 'inheritance inference is an mp11 metaprogram plus unordered_map / deque / std::sort code in augment_classes; '
-           'no function within CBMC\'s C subset carries the property, a rule-based C translation would be a hand model (DESIGN.md section 7)',
     'C11': 'argument adjustment is static_cast / dynamic_cast / std::forward / shared_ptr ownership in thunk templates: '
            'C++ language semantics with no body in the verifier\'s language (DESIGN.md section 7)',
     'C14': 'policy isolation is the identity of template static data members and mp11 rebind/replace/remove; in the C extraction '
@@ -74,7 +72,7 @@ PROPS = {
         'assumptions': [],
     },
     'C04': {
-        'units': [slots.jobs, resolve.jobs, vptrs.jobs, install.jobs],
+        'units': [slots.jobs, resolve.jobs, vptrs.jobs, install.jobs, augment.jobs],
         'level': 'proof',
         'technique': T_SHAPES + ' with bounds / pointer checks and a checked word-to-pointer shim for every read of the call path; '
                      'bounded CBMC over every inheritance DAG for assign_slots / assign_tree_slots / assign_lattice_slots',
@@ -82,8 +80,8 @@ PROPS = {
                       '(CBMC bounds and pointer obligations; a v-table word used as an address must address a dispatch-data cell). Slot allocation is checked '
                       'bounded over EVERY inheritance DAG of <= 3/4 classes in every registration order: two (method, parameter) pairs that accept a class never '
                       'share a cell of its v-table and every cell lies inside it.',
-        'level_note': 'slot allocation is bounded, not proved, and takes the lattice data as augment_classes computes it from COMPLETE base lists (incremental / split '
-                      'registrations are C08, not claimed); sizing and filling of the dispatch data (install_gv) is checked on concrete registry shapes (bounded)',
+        'level_note': 'slot allocation is bounded, not proved, and takes the lattice data (transitive bases = all proper ancestors) that units/augment checks augment_classes to produce for every '
+                      'presentation of the same graph (bounded); sizing and filling of the dispatch data (install_gv) is checked on concrete registry shapes (bounded)',
         'design_ref': 'DESIGN.md section 6 C04',
         'unverified': [A_INSTALL, A_AUGMENT, 'unordered_set iteration order in assign_lattice_slots: one order explored'],
         'assumptions': [],
@@ -133,6 +131,24 @@ PROPS = {
         'unverified': [A_TABLES, A_AUGMENT, A_INSTALL],
         'assumptions': [],
     },
+    'C08': {
+        'units': [augment.jobs, slots.jobs],
+        'level': 'other',
+        'technique': 'bounded CBMC run of the extracted augment_classes / calculate_covariant_classes on concrete inheritance graphs x concrete presentations, '
+                     'against the graph itself; bounded CBMC of slot allocation over every DAG for the consumer',
+        'level_text': 'For every transitively reduced labeled DAG of <= 3 classes and the 4-class DAGs with multiple and indirect inheritance (thorough: all of them), presented as '
+                      'complete base lists, direct bases only, direct bases plus root ancestors, without the class itself, duplicated entries in reversed record order, and one record per base: '
+                      'the reconstructed lattice is the graph - covariant(B) = B and its descendants, transitive_bases(D) = all proper ancestors, direct_bases / direct_derived the direct '
+                      'relations without duplicates, one class per id. Hence every presentation yields the same compiler input; slot allocation (units/slots) then gives two parameters '
+                      'applicable to a class distinct cells.',
+        'level_note': 'bounded stand-in only: nothing is discharged for all graphs. Equality of dispatch / next across presentations is the composition "same lattice => same downstream input"; '
+                      'the order of compiler::classes follows the first record of each class, covered by enumerating labeled graphs. type ids with several type_info objects per class '
+                      '(type_index projection) not exercised',
+        'design_ref': 'DESIGN.md section 6 C08',
+        'unverified': ['use_classes / class_declaration metaprogram that produces the records (mp11, std::is_base_of)', 'std::unordered_map / deque / unordered_set / std::sort shims (see evidence)', A_TABLES],
+        'assumptions': [],
+        'explanation': 'bounded run of the real augment_classes on concrete graphs and presentations; not a proof',
+    },
     'C09': {
         'units': [virtual_ptr.jobs, resolve.jobs, vptrs.jobs],
         'level': 'proof',
@@ -147,13 +163,14 @@ PROPS = {
         'assumptions': [],
     },
     'C10': {
-        'units': [deferred.jobs, vptrs.jobs, hashing.jobs],
+        'units': [deferred.jobs, vptrs.jobs, hashing.jobs, augment.jobs],
         'level': 'proof',
         'technique': 'bounded CBMC on extracted resolve_static_type_ids over concrete registry layouts; publish / hash obligations quantify over every id of every class',
         'level_text': 'The flavours differ in how ids are obtained (templates, out of reach), in deferred resolution (checked bounded: every deferred id of every record is '
                       'resolved exactly once for arity 1..3, shared or distinct lists, 1..3 updates) and in one-class-many-ids (publish_vptrs and the hash are proved for every id '
-                      'of every class).',
-        'level_note': 'class identity through Policy::type_index in augment_* is not under contract; deferred check is bounded',
+                      'of every class). Class identity through Policy::type_index in augment_classes is checked bounded: every DAG of <= 4 classes registered under two ids per class '
+                      '(many-to-one projection) yields one runtime class per class, known under both ids, with the same lattice.',
+        'level_note': 'class identity through Policy::type_index in augment_methods is not under contract; the deferred and augment checks are bounded',
         'design_ref': 'DESIGN.md section 6 C10',
         'unverified': [A_AUGMENT, 'id acquisition templates (std_rtti, minimal_rtti, custom static_type)'],
         'assumptions': [],
@@ -171,14 +188,14 @@ PROPS = {
         'assumptions': [],
     },
     'C15': {
-        'units': [hashing.jobs, virtual_ptr.jobs],
+        'units': [hashing.jobs, virtual_ptr.jobs, augment.jobs],
         'level': 'proof',
         'technique': 'DFCC contract on the checked lookup + rejection lemma; loop-free proofs of the checked virtual_ptr constructor and final',
         'level_text': 'Call time: the checked hash returns only for ids that pass the range / identity test and (lemma from checked hash_initialize\'s postcondition) those are '
                       'registered; any other id is reported once as unknown_class_error with that id and the lookup does not return, before the vptr vector is read. The checked '
                       'virtual_ptr constructor reports an unregistered dynamic class on BOTH routes (lookup and exact-static-type shortcut, also with a stale static vptr); final '
                       'reports a dynamic != static mismatch as method_table_error.',
-        'level_note': 'update-time diagnosis of unregistered bases / parameters (augment_classes / augment_methods) is not under contract; smart-pointer flavours of final not modelled',
+        'level_note': 'update-time diagnosis: an unregistered BASE in augment_classes is checked on one concrete registry (bounded); unregistered method parameter classes (augment_methods) are not under contract; smart-pointer flavours of final not modelled',
         'design_ref': 'DESIGN.md section 6 C15',
         'unverified': [A_AUGMENT],
         'assumptions': [],
